@@ -434,6 +434,7 @@ func (fr *Frame) materialize(st *State, v ssa.Value, a *Addr, at *types.Array) *
 func mapClasses(mt *types.Map) (hk string, hs Sort, vk string, vs Sort) {
 	ks := mapKeySort(mt.Key())
 	key := typeKey(mt.Key()) + "=>" + typeKey(mt.Elem())
+	noteClass("MV:"+key, mt.Elem())
 	return "MH:" + key, SArr(SRef, SArr(ks, SBool)), "MV:" + key, SArr(SRef, SArr(ks, SortOf(mt.Elem())))
 }
 
